@@ -270,7 +270,7 @@ def run(ctx):
         ctx.mc("mc-lehmer-" + nm, SPEC, "GcdLehmerAlg.tla", gcfg2, workers=4, timeout=2400)
     # the extended gcd on top of it: the cofactor buffers with their length fields (Euclidean and Lehmer updates, the
     # one-word ending), the exact division for the second coefficient, and the word-sized extended gcd of dashu-base
-    xg = [("w3", 3, 1023, 1, "FALSE"), ("w3d", 3, 1023, 2, "TRUE")] + ([] if ctx.quick else [("w4", 4, 8191, 3, "FALSE"), ("w3x", 3, 4095, 3, "FALSE")])
+    xg = [("w3", 3, 1023, 1, "FALSE"), ("w3d", 3, 1023, 2, "TRUE")] + ([] if ctx.quick else [("w4", 4, 8191, 7, "FALSE"), ("w3x", 3, 4095, 3, "FALSE")])
     for nm, w, xmax, ys, dw in xg:
         xcfg = fw.write_cfg(ctx.path("MC_GcdExtAlg_%s.cfg" % nm), spec="ExtSpec", invariants=["GcdExtOK"], constants={"W": w, "XMax": xmax, "YStride": ys, "Dword": dw})
         ctx.mc("mc-gcdext-" + nm, SPEC, "GcdExtAlg.tla", xcfg, workers=4, timeout=3000)
